@@ -1,6 +1,6 @@
 \* exhaustive, one command: 1-2 candidates x 0-2 replacements, one fault at every call position, one restart anywhere,
 \* all orders of replacement initialisation / disappearance / stall; queue.go as it is (CodeMode = "code")
-CONSTANTS Nodes = {"n1", "n2"}  Cmds = {"A"}  MaxRepl = 2  T = 1  MaxNow = 2  MaxFaults = 1  MaxRestarts = 1
+CONSTANTS Nodes = {"n1", "n2"}  Cmds = {"A"}  MaxRepl = 2  T = 1  MaxNow = 2  MaxFaults = 1  MaxRestarts = 1  MaxCandVanish = 1
           DelFaults = TRUE  CodeMode = "code"  Weak = "none"  Serial = FALSE  Gen = FALSE  MaxLen = 0
 SPECIFICATION Spec
 INVARIANTS TypeOK Inv_C08_DeleteAfterAllInitialized Inv_C08_NoDeleteAfterFailure_Code Inv_C08_SingleCommandPerNode
